@@ -154,11 +154,11 @@ static int fx_sink_control(struct upipe *upipe, int command, va_list args)
 }
 
 /* returns 0 or a message */
-static const char *fx_open(struct fx *fx, bool h265)
+static const char *fx_open(struct fx *fx, bool h265, uint8_t out_encaps)
 {
     memset(fx, 0, sizeof(*fx));
     fx->h265 = h265;
-    fx->out_encaps = UREF_H26X_ENCAPS_ANNEXB;
+    fx->out_encaps = out_encaps;
     if (fix_mem_init(&fx->fm, 0, 0, 0) != 0) return "fix_mem_init";
     uprobe_init(&fx->probe, fx_catch, NULL);
     memset(&fx->sink_mgr, 0, sizeof(fx->sink_mgr));
